@@ -118,4 +118,7 @@ example : limitOf ‚ü®.ietf, 10‚ü© = 2 ^ 38 ‚àß (2 ^ 38 - 64) + 64 ‚â§ limitOf ‚ü
     `CC.Thm.C02.source_glue_match`. -/
 theorem source_glue_match : type_of% @CC.Thm.C02.source_glue_match := CC.Thm.C02.source_glue_match
 
+/-- the `SeekNum` conversions every seek / position query of C11 goes through are the crate's (see `CC.Thm.C02.source_seeknum_match`) -/
+theorem source_seeknum_match : type_of% @CC.Thm.C02.source_seeknum_match := CC.Thm.C02.source_seeknum_match
+
 end CC.Thm.C11
